@@ -148,7 +148,7 @@ class BitSet:
 class Obj:
     """heap object of concrete identity"""
     _next = [0]
-    __slots__ = ('cls', 'attrs', 'oid', 'tag', 'frozen')
+    __slots__ = ('cls', 'attrs', 'oid', 'tag', 'frozen', 'fwd')
 
     def __init__(self, cls, attrs=None, tag=None):
         self.cls = cls
@@ -157,6 +157,7 @@ class Obj:
         self.oid = Obj._next[0]
         self.tag = tag
         self.frozen = False
+        self.fwd = None       # SymObj this object was moved to when stored into a symbolic container
 
     def __repr__(self):
         return '<Obj %s#%d%s>' % (self.cls.name if self.cls is not None else '?', self.oid, ' ' + self.tag if self.tag else '')
@@ -195,6 +196,14 @@ class SymObj:
         return st.read_field(self, name)
 
 
+class Box:
+    """reference to an arbitrary value kept in the state's box table"""
+    __slots__ = ('ref',)
+
+    def __init__(self, ref):
+        self.ref = ref
+
+
 class PyList:
     __slots__ = ('items',)
 
@@ -228,51 +237,69 @@ class SymSeq:
     """list/tuple of symbolic length: arr: z3 Array(Int -> elem sort), n: z3 Int length (>= 0).
     Arrays + length instead of z3 Seq: index reasoning stays in LIA+arrays and models of long lists are cheap.
     The object is a mutable cell (append/pop rebind arr, n) so that aliases see updates."""
-    __slots__ = ('arr', 'n', 'elem', 'facts', 'tag')
+    __slots__ = ('arr', 'n', 'elem', 'facts', 'tag', 'meas')
 
-    def __init__(self, arr, n, elem, facts=None, tag=None):
+    def __init__(self, arr, n, elem, facts=None, tag=None, meas=None):
         self.arr = arr
         self.n = n
         self.elem = elem     # Kind
         self.facts = facts   # optional enumeration facts (see lib.symmap_keys)
         self.tag = tag       # 'bytearray' for a bytearray (elements 0..255)
+        self.meas = dict(meas) if meas else {}    # ghost measures: name -> z3 term (homomorphic in the elements)
 
     def __repr__(self):
         return 'SymSeq<n=%s>' % (self.n,)
 
     def copy(self):
-        return SymSeq(self.arr, self.n, self.elem, self.facts, self.tag)
+        return SymSeq(self.arr, self.n, self.elem, self.facts, self.tag, self.meas)
 
     def assign(self, other):
-        self.arr, self.n, self.facts = other.arr, other.n, other.facts
+        self.arr, self.n, self.facts, self.meas = other.arr, other.n, other.facts, dict(other.meas)
 
 
 class SymMap:
     """dict of symbolic shape: dom: Array(K,Bool), val: Array(K,V)"""
-    __slots__ = ('dom', 'val', 'kkind', 'vkind', 'size')
+    __slots__ = ('dom', 'val', 'kkind', 'vkind', 'size', 'key_inv')
 
-    def __init__(self, dom, val, kkind, vkind, size=None):
+    def __init__(self, dom, val, kkind, vkind, size=None, key_inv=None):
         self.dom = dom
         self.val = val
         self.kkind = kkind
         self.vkind = vkind
         self.size = size     # optional z3 Int: number of keys
+        self.key_inv = key_inv   # optional fn(key term) -> z3 Bool: invariant of the keys (instantiated where keys are read)
 
     def __repr__(self):
         return 'SymMap<%s>' % (self.dom,)
 
 
-class Kind:
-    """how a z3 term is wrapped into a value: ('int', cls) ('bool') ('real') ('bytes') ('str') ('obj', cls)"""
-    __slots__ = ('ty', 'cls')
+_TUPLE_SORTS = {}
 
-    def __init__(self, ty, cls=None):
+
+def list_sort(inner_sort):
+    """z3 tuple sort (arr: Array(Int->inner), n: Int) for list values stored inside symbolic maps"""
+    k = str(inner_sort)
+    if k not in _TUPLE_SORTS:
+        name = 'List_' + ''.join(c if c.isalnum() else '_' for c in k)
+        _TUPLE_SORTS[k] = z3.TupleSort(name, [z3.ArraySort(IntSort, inner_sort), IntSort])
+    return _TUPLE_SORTS[k]
+
+
+class Kind:
+    """how a z3 term is wrapped into a value: ('int', cls) ('bool') ('real') ('bytes') ('str') ('obj', cls) ('fn')
+    ('enum', cls) ('box': any value, kept in a side table) ('seq', inner Kind: a list value)"""
+    __slots__ = ('ty', 'cls', 'inner')
+
+    def __init__(self, ty, cls=None, inner=None):
         self.ty = ty
         self.cls = cls
+        self.inner = inner
 
     def sort(self):
+        if self.ty == 'seq':
+            return list_sort(self.inner.sort())[0]
         return {'int': IntSort, 'bool': BoolSort, 'real': RealSort, 'bytes': BytesSort,
-                'str': StrSort, 'obj': IntSort, 'fn': IntSort, 'enum': IntSort}[self.ty]
+                'str': StrSort, 'obj': IntSort, 'fn': IntSort, 'enum': IntSort, 'box': IntSort}[self.ty]
 
     def __repr__(self):
         return 'Kind(%s%s)' % (self.ty, ',' + self.cls.name if self.cls is not None else '')
